@@ -137,16 +137,16 @@ def _generate_next_n(cls):
     return run
 
 
-harness('c06.generate_next_n[generator]', ['C06', 'C12', 'C07', 'C08'], functions=[SFG + '._generate_next_n'],
+harness('c06.generate_next_n[generator]', ['C06', 'C12', 'C07', 'C08', 'C01'], functions=[SFG + '._generate_next_n'],
         assumptions=['async_range used through its contract (c06.async_range)', 'the application generator is abstract'])(_generate_next_n(SFG))
-harness('c06.generate_next_n[async-generator]', ['C06', 'C12', 'C07', 'C08'], functions=[SFA + '._generate_next_n'],
+harness('c06.generate_next_n[async-generator]', ['C06', 'C12', 'C07', 'C08', 'C01'], functions=[SFA + '._generate_next_n'],
         assumptions=['async_range used through its contract (c06.async_range)', 'the application generator is abstract'])(_generate_next_n(SFA))
 
 
 QNN = SFG + '.queue_next_n'
 
 
-@harness('c06.queue_next_n', ['C06', 'C12', 'C07', 'C08'], functions=[QNN, SFG + '._start_generator'],
+@harness('c06.queue_next_n', ['C06', 'C12', 'C07', 'C08', 'C01'], functions=[QNN, SFG + '._start_generator'],
          assumptions=['_generate_next_n(n) used through its contract: yields at most n elements (c06.generate_next_n); modelled here by a '
                       'generic batch of 0..2 elements', 'asyncio.Queue modelled as FIFO'])
 def queue_next_n(E):
@@ -344,7 +344,7 @@ harness('c09.source.cancel[async-generator]', ['C09', 'C06', 'C11'], functions=[
 
 # --------------------------------------------------------------------------- CollectorSubscriber (awaitable API)
 
-@harness('c06.collector_subscriber', ['C06', 'C07', 'C08', 'C09'], functions=[COL + '.' + n for n in ('__init__', 'on_next', 'on_complete', 'on_error',
+@harness('c06.collector_subscriber', ['C06', 'C07', 'C08', 'C09', 'C01'], functions=[COL + '.' + n for n in ('__init__', 'on_next', 'on_complete', 'on_error',
                                                                                                   'on_subscribe', 'cancel', 'request')],
          replay='c06_collector')
 def collector(E):
